@@ -9,9 +9,11 @@ done
 for f in $(git diff --name-only --diff-filter=U); do
   case "$f" in
     lean/XrsVerif/Gen/*|lean/XrsVerif/Audit/*|evidence/*) git checkout --theirs -- "$f" ;;
-    *) echo "UNRESOLVED: $f" ;;
+    lean/XrsVerif.lean) git checkout --ours -- "$f" ;;
+    *) echo "UNRESOLVED: $f"; bad=1 ;;
   esac
 done
+if [ -n "$bad" ]; then echo "resolve the files above, then: python3 harness/translate.py; python3 tools_registry.py; python3 tools_mkmanifest.py; git add -A; git commit"; exit 1; fi
 python3 harness/translate.py
 python3 tools_registry.py
 python3 tools_mkmanifest.py
